@@ -13,7 +13,7 @@ Trusted and only *modelled* (cross-checked by the correspondence run, not proved
   after its first character is `ErrBareQuote`; `FieldsPerRecord = 0` ⇒ the FIRST record read (the
   header row, read by `ReadMetadata`) fixes the field count and every record with another count is
   returned with `ErrFieldCount`.  Fields containing `,` CR LF or starting with `"` are outside the model.
-* `strconv.ParseInt/ParseUint/ParseBool/ParseFloat` (decimal syntax, `inf`/`nan`; no hex floats, no `_`),
+* `strconv.ParseInt/ParseUint/ParseBool/ParseFloat` (decimal syntax incl. the `_` digit-separator rule, `inf`/`nan`; no hex floats),
   `time.ParseInLocation` for the one layout `20060102 15:04:05`, `time.Unix`, zones as transition tables.
 
 Modelled as code: `ReadMetadata` column matching, `CSVtoNumpyMulti` (chunk read loop: ANY reader error
